@@ -192,7 +192,7 @@ if (cmd === "replay") {
   process.exit(0);
 }
 const tier = cmd === "thorough" ? "thorough" : "quick";
-const N = Number(process.env.HOSTLEG_RUNS || (tier === "quick" ? 400 : 8000));
+const N = Number(process.env.HOSTLEG_RUNS || (tier === "quick" ? 400 : 40000));
 const t0 = Date.now();
 const agg = { ran: true, runs: N, asked: 0, compared: 0, boundaries: 0, fs_changes: 0, violations: [] };
 const first = new Map();
@@ -215,7 +215,7 @@ for (const [cls, { index, run }] of [...first.entries()].sort()) {
   lines.push(`VIOLATION property=C14 replay=${p} class=${cls}`);
 }
 // the watch loop of commandeer.ts, with controllable stand-ins for chokidar / commander / wasm
-const wl = watchLoopLeg(OUT, tier === "quick" ? 200 : 3000, ROOT);
+const wl = watchLoopLeg(OUT, tier === "quick" ? 200 : 15000, ROOT);
 agg.watch_loop = { ...wl, what: "commandeer.ts + bundler.ts + bundle-to-disk.ts evaluated for real in watch mode (stand-ins: chokidar with recorded watchers, commander, the wasm package with recorded calls); seeded histories of saves, change events, changing read sets and failing builds; W1 change hands the current content over first, W2 then builds, W3 every file a build reads is watched, W4 the output on disk is the last successful build" };
 for (const v of wl.violations) {
   const file = { engine: "hostleg", kind: "watchloop", property: "C14", violation_class: v.class, root_seed: ROOT, run_index: v.detail.history ?? 0, observed: v.detail };
